@@ -52,9 +52,13 @@ def world():
     w.path = os.path.join(dbapi.scratch_dir(), 'c22-%d.sqlite' % os.getpid())
     if os.path.exists(w.path): os.unlink(w.path)
     db.bind('sqlite', w.path, create_db=True, factory=dbapi.VfConnection, timeout=0)
+    @db.on_connect(provider='sqlite')
+    def _fast_journal(db, con):            # C22 does not study crashes: keep the rollback journal in memory
+        sqlite3.Connection.execute(con, 'PRAGMA journal_mode = MEMORY')
     db.generate_mapping(create_tables=True)
     db.disconnect()
     w.raw = sqlite3.connect(w.path, isolation_level=None, check_same_thread=False)
+    w.raw.execute('PRAGMA journal_mode = MEMORY')
     w.raw.execute('insert into Grp (id, name) values (1, "g1"), (2, "g2")')
     w.raw.executemany('insert into Person (id, name, nick, age, score, grp) values (?,?,?,?,?,?)', PEOPLE)
     w.locks = (sched.SchedLock('pre'), sched.SchedLock('tx'))
@@ -70,8 +74,10 @@ def world():
 def reset(w):
     """fresh caches + fresh content of the only table that threads write"""
     for c in w.cache_clearers: c()
+    w.raw.execute('BEGIN IMMEDIATE')
     w.raw.execute('delete from Scratch')
     w.raw.executemany('insert into Scratch (id, owner, v) values (?,?,?)', SCRATCH)
+    w.raw.execute('COMMIT')
 
 # ---- process-wide caches (found by reading the code; a missing one is a hard error) ---------------
 ENTITY_CACHES = ('_find_sql_cache_', '_load_sql_cache_', '_batchload_sql_cache_', '_insert_sql_cache_',
@@ -108,26 +114,27 @@ def cache_clearers(w):
     return out
 
 # ---- scheduling points: a fixed list of Pony code objects -----------------------------------------
-def _cache_line(text):
-    return '_translator_cache' in text or '_constructed_sql_cache' in text
+DB_CACHES = ('_translator_cache', '_constructed_sql_cache')
 
 def pointset(w):
     from pony.orm import asttranslation, decompiling, ormtypes
     pcore = w.pcore
     Q = _need(pcore, 'Query', 'pony.orm.core')
     ps = sched.PointSet()
-    ps.add('Query._get_translator', _need(Q, '_get_translator', 'Query'))
+    ps.add('Query._get_translator', _need(Q, '_get_translator', 'Query'), DB_CACHES, whole=True, keep_loops=True)
     for name in ('__init__', '_order_by', '_process_lambda', '_apply_kwargs', '_construct_sql_and_arguments', 'delete'):
-        ps.add('Query.' + name, _need(Q, name, 'Query'), _cache_line)
-    ps.add('adapt_sql', _need(pcore, 'adapt_sql', 'pony.orm.core'))
-    ps.add('string2ast', _need(pcore, 'string2ast', 'pony.orm.core'))
-    ps.add('decompile', _need(decompiling, 'decompile', 'pony.orm.decompiling'))
-    ps.add('create_extractors', _need(asttranslation, 'create_extractors', 'pony.orm.asttranslation'))
-    ps.add('parse_raw_sql', _need(ormtypes, 'parse_raw_sql', 'pony.orm.ormtypes'))
-    # the names core.py uses must be the objects we trace (from-imports bind at import time)
-    for name, mod in (('decompile', decompiling), ('create_extractors', asttranslation)):
-        if getattr(pcore, name, None) is not getattr(mod, name):
-            raise core.HarnessError('C22: pony.orm.core.%s is not %s.%s' % (name, mod.__name__, name))
+        ps.add('Query.' + name, _need(Q, name, 'Query'), DB_CACHES)
+    ps.add('adapt_sql', _need(pcore, 'adapt_sql', 'pony.orm.core'), ('adapted_sql_cache',), whole=True)
+    ps.add('string2ast', _need(pcore, 'string2ast', 'pony.orm.core'), ('string2ast_cache',), whole=True)
+    ps.add('decompile', _need(decompiling, 'decompile', 'pony.orm.decompiling'), ('ast_cache',), whole=True)
+    ps.add('create_extractors', _need(asttranslation, 'create_extractors', 'pony.orm.asttranslation'), ('extractors_cache',), whole=True)
+    ps.add('parse_raw_sql', _need(ormtypes, 'parse_raw_sql', 'pony.orm.ormtypes'), ('raw_sql_cache',), whole=True)
+    # the names core.py / sqltranslation.py call must be the objects we trace (from-imports bind at import time)
+    from pony.orm import sqltranslation
+    for user in (pcore, sqltranslation):
+        for name, mod in (('decompile', decompiling), ('create_extractors', asttranslation)):
+            if getattr(user, name, None) is not getattr(mod, name):
+                raise core.HarnessError('C22: %s.%s is not %s.%s' % (user.__name__, name, mod.__name__, name))
     return ps
 
 # ---- the queries the threads run -------------------------------------------------------------------
@@ -168,6 +175,9 @@ def q_raw_sql2(w, x, y):
 
 def q_hybrid(w, n):
     return sorted(w.orm.select(p.name for p in w.Person if p.older(n)))
+
+def q_hybrid_slice(w, lo, hi, n):
+    return sorted(w.orm.select(p.nick[lo:hi] for p in w.Person if p.older(n)))
 
 def q_hybrid_global(w):
     return sorted(w.orm.select(p.label for p in w.Person if p.senior()))
@@ -218,6 +228,9 @@ def q_raw_sql2(w, x, y):
 def q_hybrid(w, n):
     return sorted(w.orm.select(p.name for p in w.Person if p.older(n)))
 
+def q_hybrid_slice(w, lo, hi, n):
+    return sorted(w.orm.select(p.nick[lo:hi] for p in w.Person if p.older(n)))
+
 def q_hybrid_global(w):
     return sorted(w.orm.select(p.label for p in w.Person if p.senior()))
 
@@ -253,7 +266,7 @@ def q_collection(w, gid, x):
 
 QUERIES = dict((f.__name__, f) for f in (
     q_slice, q_getattr, q_filter_slice, q_where_getattr, q_string, q_string_lambda, q_db_select, q_by_sql,
-    q_raw_sql, q_raw_sql2, q_hybrid, q_hybrid_global, q_kwargs, q_kwargs_noorder, q_order_numbers, q_count,
+    q_raw_sql, q_raw_sql2, q_hybrid, q_hybrid_slice, q_hybrid_global, q_kwargs, q_kwargs_noorder, q_order_numbers, q_count,
     q_get, q_page, q_delete, q_collection))
 
 def run_program(w, program):
